@@ -128,6 +128,18 @@ pub fn run(tier: Tier) -> ! {
             report(text, &labels, &vec![vec![]; text.len()]);
         }
     });
+    // (a') enriched alphabet at shorter length (low-byte look-alikes of the delimiters, non-ASCII
+    // whitespace, a tab, every UTF-8 length), as text and as the tag of a one-character text
+    let enriched = ['a', ' ', '/', '\\', '-', '|', 'Ġ', 'į', 'Ŝ', 'ĭ', 'ż', '\u{3000}', '\t', 'é', 'あ', '𠀋', '\u{85}'];
+    let texts_e = gen::strings(&enriched, 1, tier.pick(3, 3));
+    texts_e.par_iter().for_each(|text| {
+        for labels in gen::vectors(3, text.len() - 1) {
+            report(text, &labels, &vec![vec![]; text.len()]);
+        }
+        report(&['x'], &[], &[vec![Some(gen::s(text))]]);
+        report(&['x', 'y'], &[2], &[vec![None, Some(gen::s(text))], vec![]]);
+    });
+    chk.set("enriched_texts", json!(texts_e.len()));
     // (b) reduced text alphabet x all labels x <=1 tag on every character
     let l1 = lists(&tagpool, 1);
     let texts_b = gen::strings(&['a', '-', '/'], 1, tier.pick(3, 4));
